@@ -333,7 +333,7 @@ func selftestSimConstructs(n int) int {
 		for wi := 0; wi < w; wi++ {
 			var prog []Call
 			for k := r.rangeIn(1, 4); k > 0; k-- {
-				prog = append(prog, Call{Fn: "synth", I1: r.intn(8), I2: r.rangeIn(1, 9)})
+				prog = append(prog, Call{Fn: "synth", I1: r.intn(10), I2: r.rangeIn(1, 9)})
 			}
 			conc = append(conc, prog)
 		}
@@ -366,7 +366,7 @@ func selftestSimConstructs(n int) int {
 		}
 		bad++
 		if bad <= 5 {
-			fmt.Printf("UNEXPECTED %s: %s\n%s\n", f.v.Class, f.v.Detail, head(f.v.Extra, 1500))
+			fmt.Printf("UNEXPECTED %s (call %s): %s\n%s\n", f.v.Class, describeCall(&c), f.v.Detail, head(f.v.Extra, 600))
 		}
 	}
 	// determinism of a sample
